@@ -233,6 +233,7 @@ func ruleGate(c *Ctx) {
 	}
 	l := c.L
 	b.resolverAndMergeRefusals(l, "R-GATE")
+	b.hooksSucceedBehindDecoder(l)
 	b.decodeRefusals(l, "R-GATE", []*ssa.Function{b.method(b.Lib, "lazyNode", "UnmarshalJSON"), b.method(b.Lib, "partialDoc", "UnmarshalJSON"), b.method(b.Lib, "partialArray", "UnmarshalJSON")})
 	sinks := b.codecSinks(l)
 	var sinkNames []string
